@@ -109,6 +109,17 @@ func Lifecycle(rng *wh.Rng, thorough bool) []Scenario {
 		Prog: prog("add:0", "run", "wrun", "add:1", "add:2", "rh", "rh", "rh", "cst:1", "cst:2", "emit:1:1", "emit:2:1", "whe:2", "close:2", "wclose", "wrr")})
 	out = append(out, Scenario{Handlers: []HandlerSpec{{SubFail: 1}}, Seed: rng.Next(), Conf: true, Tag: "life/subfail/run",
 		Prog: prog("add:0", "run", "wrr", "rh", "cst:0", "emit:0:1", "whe:1", "close:1", "wclose")})
+	// a (redundant) RunHandlers call is held right after it took handlersLock – at its own log line – while the router is
+	// closed by a caller / closes itself after cancel: every call must return, Run with nil
+	for _, op := range []string{"close:2", "cancel"} {
+		p := prog("add:0", "run", "wrun", "wst:0", "park:kl", "rhbg", "wpark", op, "nap:40", "rel", "wrh")
+		if op == "cancel" {
+			p = append(p, "wrr", "close:1", "wclose")
+		} else {
+			p = append(p, "wclose", "wrr")
+		}
+		out = append(out, Scenario{Handlers: []HandlerSpec{plain(0)}, Prog: p, Seed: rng.Next(), Conf: true, WaitMs: 8000, Tag: "life/rh-vs-shutdown/" + op})
+	}
 	// a second Run returns an error; RunHandlers on a router that is not running returns an error
 	out = append(out, Scenario{Handlers: []HandlerSpec{plain(0)}, Seed: rng.Next(), Conf: true, Tag: "life/second-run",
 		Prog: prog("add:0", "run", "wrun", "run2", "emit:0:1", "whe:1", "run2", "close:1", "wclose", "wrr")})
